@@ -83,8 +83,12 @@ def do_replay(prop, entry, path):
     from .runner import fork_run
     with open(path) as f:
         replay = json.load(f)
+    from . import findings
+    known = findings.known_for(prop)
+    known_sigs = sorted({x for f in known for x in (f.get("signatures") or [f.get("signature")])})
+    # (as in exploration: of several violations in one run, one that is not a known finding is reported first)
     spec = dict(entry.get("spec", {}), property=prop, seed=replay.get("seed", 0), run=replay.get("run", 0),
-                replay=replay)
+                replay=replay, known_signatures=known_sigs)
     res = fork_run(entry["fn"], spec)
     exp = replay.get("expect", {})
     print("replay verdict=%s signature=%s digest=%s" % (res.get("verdict"), res.get("signature"), res.get("digest")))
@@ -93,6 +97,10 @@ def do_replay(prop, entry, path):
         print("detail: %s" % res.get("detail"))
         same = res.get("signature") == exp.get("signature") and res.get("digest") == exp.get("digest")
         print("reproduced exactly: %s" % same)
+        f = findings.match(prop, res.get("signature"), known)
+        if f is not None:
+            print("KNOWN-FINDING: property=%s %s (signature %s)" % (prop, f.get("what"), res.get("signature")))
+            return 0
         print("VIOLATION property=%s replay=%s" % (prop, path))
         return 1
     if res.get("verdict") in ("harness_error", "wall_timeout"):
@@ -156,6 +164,9 @@ def main(argv=None):
         if f is not None:
             known_hit.append({"signature": v.get("signature"), "what": f.get("what"),
                               "count": agg.violation_count.get(v.get("signature"), 0)})
+            if v.get("replay") is not None and os.environ.get("VERIF_SAVE_KNOWN") == "1":
+                # (development aid: a current replay of a known finding, to refresh findings/ after harness changes)
+                save_replay(prop, seed, v["replay"], ".known")
         else:
             new.append(v)
     for k in known_hit:
